@@ -5,6 +5,7 @@
 -/
 import Stevia.Proofs.HashSetState
 import Stevia.Proofs.ExecInv
+import Stevia.Proofs.HashSetImpEq
 
 namespace Stevia.C02
 open Stevia
@@ -65,5 +66,23 @@ theorem iter_members (hash : γ → Nat) (s : HSet γ) (h : s.Inv hash) :
     s.iter.Perm s.members ∧ s.iter.Nodup := by
   obtain ⟨h1, h2⟩ := HSet.iter_spec h
   exact ⟨h1 ▸ List.Perm.refl _, h2⟩
+
+/-- The *literal* register-level transcription of hash_set.rs (`Stevia.Model.HashSetImp`: indices, bucket
+    and next registers, `while current != SENTINEL` loops, `add_node`/`remove_node` on the header words),
+    run on the layout of any well-formed state, yields exactly the layout of the functional model's next
+    state and the same answer — so everything proved above about the functional model holds for the
+    register-level algorithm, for every hash function. -/
+theorem literal_model_is_the_model (hash : γ → Nat) (vd : γ) (s : HSet γ) (h : s.Inv hash) (v : γ) :
+    (∃ s' r, s.insert hash v = .ok (s', r) ∧ HImp.insert hash (HImp.dflt vd) (s.image vd) v = (s'.image vd, r)) ∧
+    (∃ s' r, s.remove hash v = .ok (s', r) ∧ HImp.remove hash (HImp.dflt vd) (s.image vd) v = (s'.image vd, r)) ∧
+    s.contains hash v = .ok (HImp.contains hash (HImp.dflt vd) (s.image vd) v) ∧
+    HImp.iter (HImp.dflt vd) (s.image vd) = s.iter := by
+  refine ⟨?_, ?_, HImp.contains_eq hash vd s h v, HImp.iter_eq hash vd s h⟩
+  · rcases HSet.insert_spec h v with ⟨_, h2⟩ | ⟨_, _, s', h2, _⟩
+    · exact ⟨s, false, h2, HImp.insert_eq hash vd s s h v false h2⟩
+    · exact ⟨s', true, h2, HImp.insert_eq hash vd s s' h v true h2⟩
+  · rcases HSet.remove_spec h v with ⟨_, h2⟩ | ⟨_, s', h2, _⟩
+    · exact ⟨s, false, h2, HImp.remove_eq hash vd s s h v false h2⟩
+    · exact ⟨s', true, h2, HImp.remove_eq hash vd s s' h v true h2⟩
 
 end Stevia.C02
